@@ -80,6 +80,8 @@ pub enum Member {
   Ctor { access: Access, params: Vec<(Param, Option<(Access, bool)>)>, calls_super: bool },
   EsPrivate(String),
   StaticBlock,
+  /// auto-accessor
+  Accessor { name: String, access: Access, is_static: bool, ty: Option<String>, init: Option<Expr> },
 }
 
 #[derive(Clone, Debug, PartialEq)]
@@ -102,6 +104,8 @@ pub struct Decl {
   pub sig_refs: Vec<String>,
   /// names only its implementation refers to
   pub body_refs: Vec<String>,
+  /// rendered type parameter list (`<T extends A = B>`), for classes, interfaces, type aliases and functions
+  pub generics: String,
 }
 
 #[derive(Clone, Debug, PartialEq)]
@@ -218,11 +222,12 @@ pub fn render_decl(d: &Decl) -> String {
         s.push_str(&format!("{}function {}(o{}: number): string;\n", ex, d.name, k));
       }
       s.push_str(&format!(
-        "{}{}function{} {}{} {}\n",
+        "{}{}function{} {}{}{} {}\n",
         ex,
         if f.is_async { "async " } else { "" },
         if f.is_gen { "*" } else { "" },
         d.name,
+        d.generics,
         r_sig(f),
         r_body(f, &d.body_refs)
       ));
@@ -238,9 +243,10 @@ pub fn render_decl(d: &Decl) -> String {
     ),
     DeclKind::Class { extends, implements, members } => {
       let mut s = format!(
-        "{}class {}{}{} {{\n",
+        "{}class {}{}{}{} {{\n",
         ex,
         d.name,
+        d.generics,
         extends.as_ref().map(|e| format!(" extends {}", e)).unwrap_or_default(),
         if implements.is_empty() { String::new() } else { format!(" implements {}", implements.join(", ")) }
       );
@@ -282,19 +288,28 @@ pub fn render_decl(d: &Decl) -> String {
           )),
           Member::EsPrivate(n) => s.push_str(&format!("  #{} = compute();\n", n)),
           Member::StaticBlock => s.push_str("  static { console.log(\"static\"); }\n"),
+          Member::Accessor { name, access, is_static, ty, init } => s.push_str(&format!(
+            "  {}{}accessor {}{}{};\n",
+            r_access(*access),
+            if *is_static { "static " } else { "" },
+            name,
+            ty.as_ref().map(|t| format!(": {}", t)).unwrap_or_default(),
+            init.as_ref().map(|i| format!(" = {}", r_expr(i))).unwrap_or_default()
+          )),
         }
       }
       s.push_str("}\n");
       s
     }
     DeclKind::Interface { extends, props } => format!(
-      "{}interface {}{} {{ {} }}\n",
+      "{}interface {}{}{} {{ {} }}\n",
       ex,
       d.name,
+      d.generics,
       if extends.is_empty() { String::new() } else { format!(" extends {}", extends.join(", ")) },
       props.iter().map(|(n, t)| format!("{}: {};", n, t)).collect::<Vec<_>>().join(" ")
     ),
-    DeclKind::TypeAlias { ty } => format!("{}type {} = {};\n", ex, d.name, ty),
+    DeclKind::TypeAlias { ty } => format!("{}type {}{} = {};\n", ex, d.name, d.generics, ty),
     DeclKind::Enum => format!("{}enum {} {{ A, B = 5 }}\n", ex, d.name),
   }
 }
@@ -426,6 +441,14 @@ pub fn member_sexp(m: &Member) -> String {
     ),
     Member::EsPrivate(_) => "esprivate".into(),
     Member::StaticBlock => "staticblock".into(),
+    Member::Accessor { name, access, is_static, ty, init } => format!(
+      "(accessor {} {} {} {} {})",
+      q(name),
+      access_s(*access),
+      *is_static as u8,
+      opt_s(ty),
+      init.as_ref().map(expr_sexp).unwrap_or("-".into())
+    ),
   }
 }
 
@@ -498,7 +521,9 @@ fn gen_expr(rng: &mut Rng, cx: &GenCtx, refs: &mut Vec<String>, allow_bad: bool)
     }
     7 => Expr::Lit(LitK::Null),
     8 => Expr::Leave("Math.PI".into()),
-    9 => Expr::Opaque("compute()".into()),
+    9 => Expr::Opaque(
+      ["compute()", "[compute(), 1]", "[1, compute()]", "[compute(), Math.PI]", "{ a: compute(), b: 1 }", "{ a: 1, b: compute() }", "[[compute()], 2]", "(compute(), 1)"][rng.below(8)].into(),
+    ),
     10 => Expr::Opaque("new Map()".into()),
     _ => Expr::AsT { ty: "typeof Math".into(), simple: false },
   }
@@ -667,6 +692,18 @@ pub fn gen_decl(rng: &mut Rng, cx: &GenCtx, name: String, exported: bool, p_bad:
           }
           7 => members.push(Member::EsPrivate(format!("h{}", j))),
           8 => members.push(Member::StaticBlock),
+          9 => {
+            let access = *pick(rng, &[Access::Pub, Access::Pub, Access::Priv, Access::Prot]);
+            let mut r = vec![];
+            let ty = if rng.chance(2, 3) && !rng.chance(p_bad, 100) { Some(gen_ty(rng, cx, &mut r)) } else { None };
+            let init = if ty.is_none() || rng.chance(1, 3) { Some(gen_expr(rng, cx, &mut r, false)) } else { None };
+            if access != Access::Priv {
+              refs.extend(r);
+            } else {
+              body_refs.extend(r);
+            }
+            members.push(Member::Accessor { name: mname, access, is_static: rng.chance(1, 3), ty, init });
+          }
           _ => {}
         }
       }
@@ -701,7 +738,7 @@ pub fn gen_decl(rng: &mut Rng, cx: &GenCtx, name: String, exported: bool, p_bad:
   refs.dedup();
   body_refs.sort();
   body_refs.dedup();
-  Decl { name, exported, is_default: false, kind, sig_refs: refs, body_refs }
+  Decl { name, exported, is_default: false, kind, sig_refs: refs, body_refs, generics: String::new() }
 }
 
 pub fn describe_decl(d: &Decl) -> serde_json::Value {
